@@ -503,6 +503,10 @@ func main() {
 		{filepath.Join(*repo, "hsms"), "repo/hsms"},
 		{filepath.Join(*repo, "hsmsss"), "repo/hsmsss"},
 		{filepath.Join(*repo, "secs1"), "repo/secs1"},
+		// no synchronisation in these today: instrumenting them is the identity, but a change that
+		// adds an atomic, a mutex or a sync.Once to an item type gets its scheduling points
+		{filepath.Join(*repo, "secs2"), "repo/secs2"},
+		{filepath.Join(*repo, "sml"), "repo/sml"},
 		{filepath.Join(*repo, "internal/wire"), "repo/internal/wire"},
 		{filepath.Join(*repo, "internal/throttle"), "repo/internal/throttle"},
 		{filepath.Join(*verif, "sim"), "verif/sim"},
